@@ -191,12 +191,14 @@ func verifHarness_C12_close_foreign_bank() {
 // decoding through shared codec trees of every codec kind: the C05 schema list
 // (null, primitives, fixed, record, enum, array, map, nullable and general
 // unions) as a field, behind a pointer, as array items and as map values, into
-// private targets. Any per-decode state a codec keeps in itself is a store into
-// shared memory.
+// private targets, and back out of a shared value into a private buffer. Any
+// per-call state a codec keeps in itself is a store into shared memory.
 func verifHarness_C12_decode_schema_matrix() {
 	verifAllocMax(4096)
 	all := verifC05Schemas()
 	fs := all[verifChoice("schema", len(all))]
+	// general unions have no writer (unionCodec.Write panics "not implemented")
+	writable := fs.Type != "union" || (len(fs.Union) == 2 && (fs.Union[0].Type == "null" || fs.Union[1].Type == "null"))
 	var proto any
 	var mk func() unsafe.Pointer
 	switch verifChoice("target", 8) {
@@ -231,14 +233,21 @@ func verifHarness_C12_decode_schema_matrix() {
 	enc := refEncode(&s, &d, nil)
 	// the same decode running alone, before any other goroutine exists
 	r0 := NewReadBuf(enc)
-	alone := c.Read(r0, mk()) != nil
-	r0.ExtractResourceBank().Close()
+	v0 := mk()
+	alone := c.Read(r0, v0) != nil
+	rb0 := r0.ExtractResourceBank()
 	verifConcurrently(func() {
 		r := NewReadBuf(enc)
 		err := c.Read(r, mk())
 		rb := r.ExtractResourceBank()
 		verifAssert((err != nil) == alone, "C12:decode-result-as-when-running-alone")
 		verifKeepAlive(rb)
+		if !alone && writable {
+			// and encoding a shared, read-only value through the same tree
+			w := NewWriteBuf(nil)
+			c.Write(w, v0)
+		}
 	})
+	verifKeepAlive(rb0)
 	verifReach("end")
 }
